@@ -476,24 +476,25 @@ func E7PoolReinit(c *core.Ctx, r *core.Report) {
 
 // mapRangeReviewed: order-dependent looking bodies that are in fact order-independent, with the reason.
 var mapRangeReviewed = map[string]string{
-	"canvas.Canvas.Fit|range c.layers":                                  "the body only accumulates rect = rect.Add(bounds) / first assignment; Rect.Add is a commutative, associative hull",
-	"renderers/pdf.pdfPageWriter.SetFont|range w.resources[\"Font\"].(pdfDict)":    "search for the unique name bound to ref: SetFont adds a ref to resources[Font] only when this search fails, so at most one key matches",
-	"renderers/pdf.pdfPageWriter.getPattern|range w.resources[\"Pattern\"].(pdfDict)": "search for a pattern DeepEqual to the new one: a pattern is only added when this search fails, so at most one key matches",
-	"renderers/pdf.pdfWriter.writeFonts|range fontMap": "refMap[ref] = font inverts the map; the values are distinct because getFont reserves a fresh object number for every entry, and refs is sorted before use",
+	"canvas.Canvas.Fit|range over map[int][]canvas.layer":                                  "the body only accumulates rect = rect.Add(bounds) / first assignment; Rect.Add is a commutative, associative hull",
+	"renderers/pdf.pdfPageWriter.SetFont|range over pdf.pdfDict":    "search for the unique name bound to ref: SetFont adds a ref to resources[Font] only when this search fails, so at most one key matches",
+	"renderers/pdf.pdfPageWriter.getPattern|range over pdf.pdfDict": "search for a pattern DeepEqual to the new one: a pattern is only added when this search fails, so at most one key matches",
+	"renderers/pdf.pdfWriter.writeFonts|range over map[*canvas.Font]pdf.pdfRef": "refMap[ref] = font inverts the map; the values are distinct because getFont reserves a fresh object number for every entry, and refs is sorted before use",
 }
 
 // mapRangeOutOfScope: functions outside the deterministic API set of C20.
 var mapRangeOutOfScope = map[string]string{
-	"canvas.ParseSVG|range svg.activeDefs": "SVG import is not in C20's API set (marker application order)",
-	"canvas.dviFonts.Get|range fontSizes": "LaTeX/DVI font lookup is not in C20's API set",
-	"canvas.FontFamily.Destroy|range family.fonts":       "per-entry call on each value (independent objects)",
-	"canvas.FontFamily.SetVariations|range family.fonts": "per-entry call on each value (independent objects)",
-	"canvas.FontFamily.SetFeatures|range family.fonts":   "per-entry call on each value (independent objects)",
+	"canvas.ParseSVG|range over map[string]canvas.svgDef": "SVG import is not in C20's API set (marker application order)",
+	"canvas.dviFonts.Get|range over map[float64][]byte": "LaTeX/DVI font lookup is not in C20's API set",
+	"canvas.FontFamily.Destroy|range over map[canvas.FontStyle]*canvas.Font":       "per-entry call on each value (independent objects)",
+	"canvas.FontFamily.SetVariations|range over map[canvas.FontStyle]*canvas.Font": "per-entry call on each value (independent objects)",
+	"canvas.FontFamily.SetFeatures|range over map[canvas.FontStyle]*canvas.Font":   "per-entry call on each value (independent objects)",
 }
 
 // E7MapOrder: results never depend on Go's randomised map iteration order.
 func E7MapOrder(c *core.Ctx, r *core.Report) {
 	r.Rule("E7.map-order", "a range over a map may only (a) collect keys/values into a slice that is sorted before any other use, (b) perform commutative reductions, (c) update the visited entry; anything else (output, argmin/argmax with a strict comparison, append without sort) depends on the iteration order")
+	rangeOrd := map[string]int{}
 	for _, rel := range modulePkgRels {
 		p := c.MustPkg(rel)
 		info := p.TypesInfo
@@ -510,7 +511,14 @@ func E7MapOrder(c *core.Ctx, r *core.Report) {
 				if rel != "" {
 					pk = rel
 				}
-				key := fmt.Sprintf("%s.%s|range %s", pk, core.FuncName(fd), types.ExprString(rs.X))
+				// keyed by the map's type (and an ordinal for repeats), not by variable names
+				mt := types.TypeString(info.TypeOf(rs.X), func(p *types.Package) string { return p.Name() })
+				ordKey := core.FuncName(fd) + "|" + mt
+				rangeOrd[ordKey]++
+				key := fmt.Sprintf("%s.%s|range over %s", pk, core.FuncName(fd), mt)
+				if rangeOrd[ordKey] > 1 {
+					key += fmt.Sprintf(" #%d", rangeOrd[ordKey])
+				}
 				r.Count("E7.map-ranges", 1)
 				pos := c.Pos(rs.Pos())
 				if why, ok := mapRangeOutOfScope[key]; ok {
